@@ -197,6 +197,7 @@ type randIt struct {
 	realIt
 	n        int  // Len of the iterated sequence (to size walks; never used to judge)
 	lastTrue bool // the last Next returned true and no ToSlice since: Attribute is defined
+	falses   int  // Next calls that returned false (an exhausted iterator is soon replaced)
 }
 
 func (s *scen) absList(l []item) []AAttr {
@@ -468,6 +469,7 @@ func (s *scen) itCall(slot int, it *randIt, op string) {
 	case "Next":
 		it.lastTrue = o.B
 		if !o.B {
+			it.falses++
 			s.res.Count("iter_next_false", 1)
 		}
 	case "ToSlice":
@@ -484,15 +486,15 @@ func (s *scen) itCall(slot int, it *randIt, op string) {
 func pickItOp(r *rand.Rand, it *randIt, sliceWeight int) string {
 	n := r.Intn(100)
 	switch {
-	case it.lastTrue && n < 35:
+	case !it.merge && n < sliceWeight:
+		return "ToSlice"
+	case !it.merge && n < sliceWeight+6:
+		return "Len"
+	case it.lastTrue && n < sliceWeight+6+35:
 		if it.merge {
 			return pick(r, "Attribute", "Attribute", "Label")
 		}
 		return pick(r, "Attribute", "IndexedAttribute", "IndexedAttribute", "Label", "IndexedLabel")
-	case !it.merge && n < 35+sliceWeight:
-		return "ToSlice"
-	case !it.merge && n < 45+sliceWeight:
-		return "Len"
 	}
 	return "Next"
 }
@@ -523,6 +525,15 @@ func (s *scen) itOps(big bool) {
 			slot = open[r.Intn(len(open))]
 		}
 		s.itCall(slot, s.its[slot], pickItOp(r, s.its[slot], sliceWeight))
+		if f := s.its[slot].falses; f >= 2 || f == 1 && r.Intn(2) == 0 {
+			// walked past the end (twice): bind the variable to a new iterator
+			a, b := 1+r.Intn(nRegs), 1+r.Intn(nRegs)
+			kind := "set"
+			if s.its[slot].merge {
+				kind = "merge"
+			}
+			s.its[slot] = s.openIt(slot, kind, a, b, &s.regs[a], &s.regs[b])
+		}
 	}
 }
 
